@@ -107,7 +107,13 @@ def in_scope(ty):
                 if out_name(S, f) not in acc and out_name(S, f) != f.name:
                     return True
         return False
-    return not contains(ty, bad)
+    def hashed_with_excluded(n):
+        # 'equal modulo excluded fields' is ill-defined inside a set / as a mapping key (elements may collapse)
+        kids = []
+        if n.k == 'set': kids = [n.a[0]]
+        elif n.k in ('dict', 'counter'): kids = [n.a[0]]
+        return any(contains(c, lambda m: m.k == 'dc' and any(f.exclude for f in m.x['spec'].fields)) for c in kids)
+    return not contains(ty, bad) and not contains(ty, hashed_with_excluded)
 
 
 def roundtrip(T, x, ty=None):
@@ -156,6 +162,15 @@ def _holds_instance(x, cls, depth=0):
     return False
 
 
+def _listify(d):
+    """Data modulo the list/tuple carrier (a union may serialise through a member that writes lists where another writes tuples)."""
+    if isinstance(d, collections.abc.Mapping):
+        return {(tuple(map(_listify, k)) if isinstance(k, tuple) else k): _listify(v) for k, v in d.items()}
+    if isinstance(d, (list, tuple)):
+        return [_listify(v) for v in d]
+    return d
+
+
 def classify(ty, x):
     """Mechanism of a located failing witness (ty, x), or None."""
     if ty.k == 'union':
@@ -177,7 +192,7 @@ def classify(ty, x):
             if j_parse is not None and j_true is not None and j_parse < j_true:
                 # only when the union wrote exactly what x's own member writes: the ambiguity is then inherent in the data
                 own = observe(env.into_data, x, members[j_true])
-                if own.kind == 'value' and deep_typed_eq(own.val, d.val)[0]:
+                if own.kind == 'value' and deep_typed_eq(_listify(own.val), _listify(d.val))[0]:
                     return 'untagged-union-reparse-ambiguity'
     if ty.k == 'union':
         for m in ty.a:
